@@ -893,6 +893,14 @@ def run(ctx: Ctx):
         c = G.centroid(res)
         waters = [G.water(rng, "A", 900 + i, c, 6.0) for i in range(rng.randint(0, 4))]
         check_case(ctx, drv, G.to_pdb([res], waters), ["--ff=" + rng.choice(["AMBER", "PARSE", "CHARMM", "SWANSON"])], {"kind": "protonated-carboxyl", "mode": "default", "target": must, "pos": "?"}, seen_sig)
+    # protonated carboxyl groups whose two C-O bonds differ (either direction, borderline, symmetric): an asymmetric
+    # group makes Carboxylic optimise ONE oxygen only (the one-proton construction orders of ash_clean / glh_clean:
+    # rename of the surviving proton, removal of the stale template proton, O-swap) - deposited carboxylates are symmetric
+    from props.c05 import gen_carboxyl_case
+
+    for ci in range(ctx.scale(12, 240)):
+        text, opts, feats = gen_carboxyl_case(rng, ci)[:3]
+        check_case(ctx, drv, text, opts, {"kind": "asymmetric-" + feats["kind"], "mode": feats["mode"], "target": feats["target"], "pos": feats["pos"]}, seen_sig)
     # the same groups protonated by the pKa route (ASH / GLH applied as patches at low pH), with and without the
     # optimisation that normally resolves the two alternative protons: without it only cleanup() does
     for ci in range(ctx.scale(6, 150)):
